@@ -840,6 +840,12 @@ class BatchCompletionCallBack(object):
 
         # Schedule the next batch of tasks.
         with self.parallel._lock:
+            # Same edge case as in __call__: the call this batch belongs to
+            # has been interrupted and a new one started on the same instance
+            # in between. The counters and the input now belong to the new
+            # call.
+            if self.parallel._call_id != self.parallel_call_id:
+                return
             self.parallel.n_completed_tasks += self.batch_size
             self.parallel.print_progress()
             if self.parallel._original_iterator is not None:
